@@ -2451,6 +2451,56 @@ func c19r13(c *Ctx, r *Report) {
 	r.floor("comparisons of path bytes with constants in the walker", n, 1)
 }
 
+// c11r20: ansiState.ToString renders the carried state as a string that the --with-nth builder puts IN FRONT
+// of the next field's text. Whatever it emits therefore has to consist of complete sequences: a piece that
+// ends in a bare ESC, or an OSC without its terminator, combines with the first characters of the text
+// (D61: the string ended in `ESC ] 8 ; ; ESC`; a field beginning with a backslash completed it to the string
+// terminator `ESC \`: the backslash vanished from the searchable text and the link was closed).
+func c11r20(c *Ctx, r *Report) {
+	l := c.L
+	r.rule("C11-R20", "D (the state prefix consists of complete sequences)", "P1",
+		"no string constant used by ansiState.ToString ends in ESC, and every `ESC ]` in such a constant is followed, in the same constant, by its terminator (ESC \\ or BEL)",
+		"the first character(s) of a --with-nth field are swallowed by the unterminated sequence in front of it: text that follows a sequence is removed from the searchable and printed text")
+	fn := l.Fn("fzf", "(*ansiState).ToString")
+	if fn == nil {
+		r.unest("anchors", token.NoPos, nil, "anchor ansiState.ToString", "cannot resolve")
+		return
+	}
+	n := 0
+	why := ""
+	eachInstr(fn, func(in ssa.Instruction) {
+		var buf [12]*ssa.Value
+		for _, op := range in.Operands(buf[:0]) {
+			if op == nil || *op == nil {
+				continue
+			}
+			str, ok := constString(*op)
+			if !ok || !strings.Contains(str, "\x1b") {
+				continue
+			}
+			n++
+			if strings.HasSuffix(str, "\x1b") {
+				why = fmt.Sprintf("the constant %q ends in a bare ESC", str)
+			}
+			rest := str
+			for {
+				i := strings.Index(rest, "\x1b]")
+				if i < 0 {
+					break
+				}
+				rest = rest[i+2:]
+				t1, t2 := strings.Index(rest, "\x1b\\"), strings.Index(rest, "\a")
+				if t1 < 0 && t2 < 0 {
+					why = fmt.Sprintf("the constant %q opens an OSC that it does not terminate", str)
+					break
+				}
+			}
+		}
+	})
+	r.check(why == "", relName(fn)+":the rendered state ends in a complete sequence", fn.Pos(), fn, fmt.Sprintf("%d constants with escape sequences, all complete", n), why)
+	r.floor("string constants with escape sequences in ansiState.ToString", n, 2)
+}
+
 // round8 runs the round-8 rules of a property (own and shared) after the property's older rules.
 func round8(c *Ctx, r *Report, prop string) {
 	switch prop {
@@ -2483,6 +2533,7 @@ func round8(c *Ctx, r *Report, prop string) {
 	case "C09":
 		c09r15(c, r)
 	case "C11":
+		c11r20(c, r)
 		c11r18(c, r)
 		c11r19(c, r)
 	case "C12":
